@@ -212,6 +212,61 @@ def main():
         if not np.isnan(h[0]):
           add('f16', f'[f32_to_f16_bits (b32_of_bits {f32bits(x)})]',
               [int(h.view(np.uint16)[0])])
+    # ---- tensors of rank 0..3 with flattened (flatbuffer-style) or
+    #      per-channel parameters: exercises fix_quantization_params_rank ----
+    for _ in range(n // 10 + 5):
+      bits = rng.choice([4, 8, 16])
+      sym = rng.random() < 0.4
+      rank = rng.choice([0, 1, 2, 2, 3])
+      shape = [rng.choice([1, 2, 3]) for _ in range(rank)]
+      data = np.array([rand_f32(rng) % 5 for _ in range(int(np.prod(shape)) if shape else 1)],
+                      dtype=np.float32).reshape(shape)
+      # per-tensor parameters are either of the tensor's rank (as the library
+      # produces them) or flattened with quantized_dimension 0 (as the
+      # interpreter reports them); per-channel ones are flattened along qd
+      mode = 'scalar' if rank == 0 else rng.choice(['same_rank', 'flat0', 'channel', 'channel'])
+      qd = rng.randrange(rank) if mode == 'channel' else (0 if mode == 'flat0' else None)
+      nch = shape[qd] if mode == 'channel' else 1
+      scs, zps = [], []
+      for _c in range(nch):
+        lo_, hi_ = sorted([rng.uniform(-5, 5), rng.uniform(-5, 5)])
+        zpc, scc = uqt.tensor_zp_scale_from_min_max(np.array([lo_], dtype=np.float32),
+                                                    np.array([hi_], dtype=np.float32), bits, sym)
+        scs.append(np.float32(scc[0])); zps.append(int(zpc[0]))
+      qt = uqt.IntType(bits, True)
+      pshape = [1] * rank if mode == 'same_rank' else [nch]
+      p = qtyping.UniformQuantParams(bits, qd, np.array(scs, dtype=np.float32).reshape(pshape),
+                                     uqt.assign_quantized_type(np.array(zps).reshape(pshape), qt), sym)
+      try:
+        q = uqt.uniform_quantize(data, p)
+        d = uqt.uniform_dequantize(q, p)
+      except Exception as e:  # pylint: disable=broad-except
+        viol.append({'key': 'C17:rank-fixup-raises', 'what': f'{type(e).__name__}: {e}',
+                     'input': {'shape': shape, 'qdim': qd, 'bits': bits}})
+        continue
+      # every code survives dequantize -> quantize, whatever the parameter layout
+      lo_c = -(2 ** (bits - 1)) + (1 if sym else 0)
+      for code in (lo_c, 2 ** (bits - 1) - 1, 0, lo_c + 1):
+        ca = np.full(shape, code, dtype=np.int8 if bits <= 8 else np.int16)
+        try:
+          back = uqt.uniform_quantize(uqt.uniform_dequantize(ca, p).astype(np.float32), p)
+          if not np.array_equal(back, ca):
+            viol.append({'key': 'C17:quantize-dequantize-id', 'what':
+                         f'code {code} comes back as {np.unique(back).tolist()} '
+                         f'(shape {shape}, qdim {qd}, layout {mode}, symmetric {sym})',
+                         'input': {'shape': shape, 'qdim': qd, 'bits': bits, 'symmetric': sym,
+                                   'scales': [float(x) for x in scs], 'zps': zps}})
+        except Exception as e:  # pylint: disable=broad-except
+          viol.append({'key': 'C17:rank-fixup-raises', 'what': f'{type(e).__name__}: {e}',
+                       'input': {'shape': shape, 'qdim': qd, 'bits': bits}})
+      for idx in np.ndindex(*shape) if shape else [()]:
+        ch = idx[qd] if mode == 'channel' else 0
+        add('quantize_nd',
+            f'[quantize ops32 {bits} {vlib.coq_bool(sym)} (b32_of_bits {f32bits(scs[ch])}) '
+            f'{vlib.zlit(zps[ch])} (b32_of_bits {f32bits(data[idx])}); '
+            f'bits_of_b64 (dequantize (b32_of_bits {f32bits(scs[ch])}) {vlib.zlit(zps[ch])} '
+            f'{vlib.zlit(int(q[idx]))})]', [int(q[idx]), f64bits(d[idx])])
+        # C17: per-channel parameters act only along their own channel
     # ---- fixed ranges ----
     for bits, scale, zpv, sym in ((8, 1.0 / 256, -128, False), (16, 1.0 / 32768, 0, True),
                                   (8, 1.0 / 128, 0, False), (16, 1.0 / 32768, 0, True),
